@@ -1,5 +1,163 @@
-From OV Require Import Base.CInt Rt.CodecPre Gen.Codec_gen Rt.CodecDefs Rt.RtBufDefs Proofs.CodecProofs.
+(* C01 - Runtime stream fidelity: every emitted event lands once, in order, byte-exact.
+   Only statements here; proofs are in Proofs/CodecProofs.v and Proofs/RtBufProofs.v.
+
+   Model: Rt/RtBufDefs.v (`run fx cap ops clock`): the per-thread event buffer of
+   src/rt/ovni.c after ovni_thread_init, driven by an arbitrary sequence of API calls `ops`
+   (emit with any chunking of the payload, jumbo emit, flush, mark push/pop/set, thread free),
+   with an arbitrary buffer capacity `cap` >= 64 (OVNI_MAX_EV_BUF = c_OVNI_MAX_EV_BUF is one
+   instance) and an arbitrary list `clock` of the values ovni_clock_now() returns.
+   ovni_payload_size / ovni_ev_size and all constants are the Gallina translation of the C
+   in /repo's working tree (Gen/Codec_gen.v).  `fx` selects add_flush_events after (true) or
+   before (false) the repair patches/fix-c02-flush-markers.diff: the C01 statements hold for both.
+   The second component of the result is the log of the events handed to the library, in call
+   order, as the caller knows them.
+
+   fidelity log bytes (Rt/RtBufDefs.v) says: bytes = 8-byte header ++ encodings of a list of
+   tagged events whose User-tagged ones are exactly `log` (same order, each once), whose
+   Lib-tagged ones are OF[ / OF] markers without payload, and which is what the strict parser
+   gives back for these bytes (so nothing else is in the stream). *)
+From OV Require Import Base.CInt Rt.CodecPre Gen.Codec_gen Rt.CodecDefs Rt.RtBufDefs
+  Proofs.CodecProofs Proofs.RtBufProofs.
 Local Open Scope Z_scope.
-Theorem C01_const_jumbo : c_OVNI_EV_JUMBO = JUMBO_FLAG.
-Proof. exact const_jumbo. Qed.
-Print Assumptions C01_const_jumbo.
+
+(* all call sequences, all capacities >= 64 (hence every alignment of the buffer-full boundary),
+   all clock values: what is on disk plus what is still buffered is faithful at every moment *)
+Theorem C01_fidelity : forall fx cap ops clock s log,
+  64 <= cap -> forallb op_wfb ops = true -> existsb is_free ops = false -> clock_u64b clock = true ->
+  run fx cap ops clock = ROk (s, log) ->
+  fidelity log (disk_bytes s ++ buf_bytes s).
+Proof. exact fidelity_no_free. Qed.
+Print Assumptions C01_fidelity.
+
+(* once the thread has flushed and been freed the file alone holds every event; nothing is buffered *)
+Theorem C01_after_free : forall fx cap ops clock s log,
+  64 <= cap -> forallb op_wfb ops = true -> existsb is_free ops = false -> clock_u64b clock = true ->
+  run fx cap (ops ++ [Flush; Free]) clock = ROk (s, log) ->
+  fidelity log (disk_bytes s) /\ buf_bytes s = [] /\ ready s = false.
+Proof. exact fidelity_after_free. Qed.
+Print Assumptions C01_after_free.
+
+(* unique decodability: "exactly once, in order, byte for byte" follows from equality of encodings *)
+Theorem C01_roundtrip : forall es,
+  Forall wf_uev es -> parse_stream (STREAM_HEADER ++ flat_map encode es) = POk es.
+Proof. exact parse_stream_encode. Qed.
+Print Assumptions C01_roundtrip.
+
+Theorem C01_encoding_injective : forall es1 es2,
+  Forall wf_uev es1 -> Forall wf_uev es2 -> flat_map encode es1 = flat_map encode es2 -> es1 = es2.
+Proof. exact encode_injective. Qed.
+Print Assumptions C01_encoding_injective.
+
+(* the flag nibble of ovni_payload_add, for all 256 flag bytes and all chunk sizes: the payload size
+   grows by exactly the chunk, the reserved high nibble is untouched, sizes < 2 or beyond 16 die
+   (whole-domain vm_compute sweep nibble_sweep lifted by zrange_forall) *)
+Theorem C01_payload_add_nibble : forall ev buf ev',
+  0 <= h_flags ev < 256 ->
+  ovni_payload_add ev buf = Ret ev' ->
+  ovni_payload_size ev' = ovni_payload_size ev + zlength buf /\
+  Z.land (h_flags ev') 240 = Z.land (h_flags ev) 240 /\
+  2 <= zlength buf /\ ovni_payload_size ev + zlength buf <= 16.
+Proof. exact payload_add_nibble. Qed.
+Print Assumptions C01_payload_add_nibble.
+
+(* building an event chunk by chunk succeeds exactly for chunks >= 2 bytes adding up to <= 16 *)
+Theorem C01_build_accepts : forall m c v chunks,
+  chunks_okb chunks = true -> exists ev, build m c v chunks = Ret ev.
+Proof. exact build_accepts. Qed.
+Print Assumptions C01_build_accepts.
+
+Theorem C01_build_refuses : forall m c v chunks,
+  chunks_okb chunks = false -> build m c v chunks = Die.
+Proof. exact build_die. Qed.
+Print Assumptions C01_build_refuses.
+
+(* calls the API refuses (a payload chunk of 0 or 1 bytes, more than 16 payload bytes, a jumbo whose
+   16+n reaches the capacity, mark value 0) abort in every reachable state ... *)
+Theorem C01_rejected_calls_abort : forall fx cap ops clock s log o,
+  64 <= cap -> forallb op_wfb ops = true -> existsb is_free ops = false -> clock_u64b clock = true ->
+  run fx cap ops clock = ROk (s, log) ->
+  op_wfb o = true -> api_okb cap o = false -> clk s <> [] ->
+  step fx cap o (s, log) = RAbort.
+Proof. exact rejected_calls_abort. Qed.
+Print Assumptions C01_rejected_calls_abort.
+
+(* ... the accepted ones never abort and never run out of recursion fuel ... *)
+Theorem C01_accepted_calls_proceed : forall fx cap ops clock s log o,
+  64 <= cap -> forallb op_wfb ops = true -> existsb is_free ops = false -> clock_u64b clock = true ->
+  run fx cap ops clock = ROk (s, log) ->
+  op_wfb o = true -> api_okb cap o = true ->
+  (exists st, step fx cap o (s, log) = ROk st) \/ step fx cap o (s, log) = RNoClock.
+Proof. exact accepted_calls_proceed. Qed.
+Print Assumptions C01_accepted_calls_proceed.
+
+(* ... so a run that completes consisted of accepted calls only *)
+Theorem C01_completed_run_only_accepted_calls : forall fx cap ops clock s log,
+  64 <= cap -> forallb op_wfb ops = true -> existsb is_free ops = false -> clock_u64b clock = true ->
+  run fx cap ops clock = ROk (s, log) -> forallb (api_okb cap) ops = true.
+Proof. exact completed_run_only_accepted_calls. Qed.
+Print Assumptions C01_completed_run_only_accepted_calls.
+
+Theorem C01_call_after_free_aborts : forall fx cap ops clock s log o,
+  run fx cap (ops ++ [Free]) clock = ROk (s, log) -> clk s <> [] -> step fx cap o (s, log) = RAbort.
+Proof. exact call_after_free_aborts. Qed.
+Print Assumptions C01_call_after_free_aborts.
+
+(* the explicit out-of-fuel answer of the model is never produced: fuel 4 is enough for cap >= 64 *)
+Theorem C01_never_out_of_fuel : forall fx cap ops clock,
+  64 <= cap -> forallb op_wfb ops = true -> run fx cap ops clock <> RNoFuel.
+Proof. exact run_never_out_of_fuel. Qed.
+Print Assumptions C01_never_out_of_fuel.
+
+Theorem C01_parse_never_out_of_fuel : forall bs, parse_stream bs <> PNoFuel.
+Proof. exact parse_stream_never_out_of_fuel. Qed.
+Print Assumptions C01_parse_never_out_of_fuel.
+
+(* the constants of the source are those of the documented format *)
+Theorem C01_format_constants :
+  c_OVNI_EV_JUMBO = 16 /\ c_sizeof_struct_ovni_ev_header = 12 /\ c_sizeof_union_ovni_ev_payload = 16 /\
+  c_sizeof_struct_ovni_stream_header = 8 /\ c_OVNI_STREAM_VERSION = 1 /\ stream_header_image = STREAM_HEADER /\
+  64 <= c_OVNI_MAX_EV_BUF.
+Proof. exact format_constants. Qed.
+Print Assumptions C01_format_constants.
+
+(* non-vacuity: a 64-byte buffer, 12 calls, a 47-byte jumbo event (63 bytes in the buffer) straddling
+   the boundary; the run completes, writes 8 times (the header, 6 automatic flushes - one of them the
+   second flush behind the near-capacity jumbo - and the explicit one), leaves 8 markers (4 pairs) on
+   disk and hands 10 events to the library; the code before the repair leaves 16 markers, nested *)
+Definition ex_ops : list op :=
+  [Emit 79 72 120 [[1; 2; 3; 4]; [5; 6; 7; 8]; [9; 10; 11; 12; 13; 14; 15; 16]];
+   MarkPush 3 (-2); Emit 86 89 99 []; JumboEmit 79 66 46 (repeat 200 47);
+   Emit 1 2 3 [[255; 0]]; MarkSet 7 9223372036854775807; JumboEmit 79 85 106 [];
+   JumboEmit 0 255 7 (repeat 9 31); MarkPop 3 (-2); Emit 79 72 101 []].
+Definition ex_clock : list Z :=
+  [5; 5; 6; 18446744073709551615; 9; 10; 11; 12; 13; 14; 15; 16; 17; 18; 19; 20; 21; 22; 23; 24; 25; 26; 27; 28; 29; 30; 31; 32; 33; 34; 35; 36].
+
+Definition count_markers (bs : list Z) : nat :=
+  match parse_stream bs with POk es => length (filter is_markerb es) | _ => O end.
+
+Example C01_ex_hypotheses :
+  forallb op_wfb ex_ops = true /\ existsb is_free ex_ops = false /\ clock_u64b ex_clock = true /\
+  forallb (api_okb 64) ex_ops = true.
+Proof. vm_compute. repeat split. Qed.
+
+Example C01_ex_run :
+  match run true 64 (ex_ops ++ [Flush; Free]) ex_clock with
+  | ROk (s, log) => length log = 10%nat /\ count_markers (disk_bytes s) = 8%nat /\ length (wr s) = 8%nat
+  | _ => False
+  end.
+Proof. vm_compute. repeat split. Qed.
+
+Example C01_ex_run_before_repair :
+  match run false 64 (ex_ops ++ [Flush; Free]) ex_clock with
+  | ROk (s, log) => length log = 10%nat /\ count_markers (disk_bytes s) = 16%nat /\ valid_stream (disk_bytes s) = false
+  | _ => False
+  end.
+Proof. vm_compute. repeat split. Qed.
+
+Example C01_ex_rejected :
+  run true 64 [Emit 1 2 3 [[7]]] [1; 2] = RAbort /\
+  run true 64 [Emit 1 2 3 [[1; 2; 3; 4; 5; 6; 7; 8]; [1; 2; 3; 4; 5; 6; 7; 8; 9]]] [1; 2] = RAbort /\
+  run true 64 [JumboEmit 1 2 3 (repeat 0 48)] [1; 2] = RAbort /\
+  run true 64 [MarkSet 1 0] [1; 2] = RAbort /\
+  run true 64 [Free; Flush] [1; 2] = RAbort.
+Proof. vm_compute. repeat split. Qed.
